@@ -83,6 +83,28 @@ theorem putAll_ok (s : Snk) (l : List (BitVec 8)) (hs : SnkOk s) : SnkOk (putAll
 def sofOf (flags : BitVec 32) : Bool :=
   decide (((zx 64 flags) &&& ((1#64) <<< ((0#32)).toNat)) = ((1#64) <<< ((0#32)).toNat))
 
+theorem enodata_iff (rc : BitVec 32) : errOf rc = .enodata ↔ rc = -(61#32) := by
+  constructor
+  · intro h
+    unfold errOf at h
+    have : (-rc).toNat = 61 := by
+      revert h; split <;> intro h <;> first | assumption | rfl | cases h
+    have h2 : -rc = 61#32 := BitVec.eq_of_toNat_eq (by rw [this]; rfl)
+    have : rc = -(-rc) := by simp
+    rw [this, h2]
+  · intro h; rw [h]; decide
+
+theorem eilseq_iff (rc : BitVec 32) : errOf rc = .eilseq ↔ rc = -(84#32) := by
+  constructor
+  · intro h
+    unfold errOf at h
+    have : (-rc).toNat = 84 := by
+      revert h; split <;> intro h <;> first | assumption | rfl | cases h
+    have h2 : -rc = 84#32 := BitVec.eq_of_toNat_eq (by rw [this]; rfl)
+    have : rc = -(-rc) := by simp
+    rw [this, h2]
+  · intro h; rw [h]; decide
+
 /-- the decoder states as the enumeration constants of the C code -/
 def stCode : Ufw.Model.Slip.St → BitVec 32
   | .searchStart => 0#32
